@@ -276,7 +276,7 @@ def gen_plan(rng, tier):
     ops = []
     have_engine = set()
     engine_set = {}
-    nops = rng.randrange(6, 15) if tier == "quick" else rng.randrange(6, 31)
+    nops = rng.randrange(6, 21) if tier == "quick" else rng.randrange(6, 31)
     e0 = 0
     eng_opts = {}
     o0 = gen_opts(rng, sets[0])
